@@ -132,7 +132,10 @@ def str_method(ev, recv, meth, args, kwargs, node):
         if enc is None:
             # symbolic charset: result is an uninterpreted function of (s, charset); may raise
             cs = args[0] if args else kwargs["encoding"]
-            ev.require(ufunc("encode_ok", S, S, Bz)(t, cs.t), "UnicodeEncodeError", node)
+            # (A-bytes) an unknown codec name is a LookupError; everything else a codec can raise is a ValueError:
+            # UnicodeEncodeError, plain UnicodeError (idna, punycode), ValueError for a name with an embedded NUL
+            ev.require(ufunc("codec_known", S, Bz)(cs.t), "LookupError", node)
+            ev.require(ufunc("encode_ok", S, S, Bz)(t, cs.t), "ValueError", node)
             return VStr(ufunc("encode_with", S, S, S)(t, cs.t), True)
         encn = enc.lower().replace("_", "-")
         if encn in ("latin-1", "latin1", "iso-8859-1"):
@@ -161,7 +164,9 @@ def str_method(ev, recv, meth, args, kwargs, node):
             ok = ufunc("decode_ok", S, S, Bz)(t, cs.t)
             known = ufunc("codec_known", S, Bz)(cs.t)
             ev.require(known, "LookupError", node)
-            ev.require(ok, "UnicodeDecodeError", node)
+            # (A-bytes) not only UnicodeDecodeError: punycode / idna raise a plain UnicodeError, a codec name with an embedded
+            # NUL a plain ValueError - a handler has to catch ValueError to catch them all
+            ev.require(ok, "ValueError", node)
             return VStr(ufunc("decode_with", S, S, S)(t, cs.t), False)
         encn = enc.lower().replace("_", "-")
         if encn in ("latin-1", "latin1", "iso-8859-1"):
